@@ -135,11 +135,13 @@ class BufferRoles:
         self.round_loop = loop
         self.round_head = next(n for n in G.nodes if n.kind == 'loop_head' and n.ast is loop)
         self.round_exit_label = 'true'     # the edge of `FLAG.is_set()` that leaves the round
-        # LOAD: nested coroutine iterating a producer into a closure set
+        # LOAD: coroutine iterating a producer (`async for`) into a set: a closure of the daemon adding to a
+        # closure set, or a (static) method adding to a set it is given (bound with functools.partial / passed at the call)
         self.load = None
         self.roundset = None
+        self.load_set_param: Optional[int] = None     # position of the set parameter, when the set is passed in
         for f in u.functions():
-            if not f.is_async or f.enclosing_function() is None:
+            if not f.is_async:
                 continue
             top = f
             while top.enclosing_function() is not None:
@@ -149,11 +151,34 @@ class BufferRoles:
             if any(isinstance(x, ast.AsyncFor) for x in own_nodes(f.node)):
                 for y in own_nodes(f.node):
                     if isinstance(y, ast.Call) and isinstance(y.func, ast.Attribute) and y.func.attr in ('add', 'update') \
-                            and isinstance(y.func.value, ast.Name) and f.binding_scope(y.func.value.id) not in (None, f):
-                        self.load = f
-                        self.roundset = y.func.value.id
+                            and isinstance(y.func.value, ast.Name):
+                        nm = y.func.value.id
+                        if f.enclosing_function() is not None and f.binding_scope(nm) not in (None, f):
+                            self.load = f
+                            self.roundset = nm
+                        elif nm in f.params and nm not in ('self', 'cls'):
+                            self.load = f
+                            ps = [x for x in f.params if x not in ('self', 'cls')]
+                            self.load_set_param = ps.index(nm)
         if self.load is None:
             raise AnalysisError('producer loader (nested coroutine with async for adding to a closure set) not found')
+        if self.load_set_param is not None:
+            # the set the daemon binds to that parameter
+            bound: Set[str] = set()
+            for x in ast.walk(self.root.unit.tree):
+                if isinstance(x, ast.Call):
+                    pre = self.loader_ref(x.func)
+                    if pre is not None:
+                        args = pre + list(x.args)
+                        if len(args) > self.load_set_param and isinstance(args[self.load_set_param], ast.Name):
+                            bound.add(args[self.load_set_param].id)
+                    elif G.res.path(x.func) == 'functools.partial' and x.args and self._names_loader(x.args[0]):
+                        args = list(x.args[1:])
+                        if len(args) > self.load_set_param and isinstance(args[self.load_set_param], ast.Name):
+                            bound.add(args[self.load_set_param].id)
+            if len(bound) != 1:
+                raise AnalysisError(f'round set bound to the loader is not a single local: {sorted(bound)}')
+            self.roundset = bound.pop()
         self.gload = build(self.load, p)
         # drain generator: method with get_nowait on the queue
         self.drain = None
@@ -168,6 +193,33 @@ class BufferRoles:
         self.wait_anywhere = self.methods.get('wait_from_anywhere')
         self.entry_points = [self.methods[m] for m in ('__call__', 'await_', 'map', 'amap') if m in self.methods]
         self.gathers = [n for n in G.nodes if n.kind == 'await' and isinstance(n.ast.value, ast.Call) and call_name(G, n.ast.value) == 'asyncio.gather']
+
+    def _names_loader(self, e: ast.AST) -> bool:
+        """`_load`, `self._load`, `Class._load` for the loader function"""
+        if self.load is None:
+            return False
+        if isinstance(e, ast.Name):
+            return e.id == self.load.name and self.load.enclosing_function() is not None
+        if isinstance(e, ast.Attribute) and e.attr == self.load.name and isinstance(e.value, ast.Name):
+            return self.load.enclosing_function() is None and e.value.id in ('self', 'cls', self.cls.name)
+        return False
+
+    def loader_ref(self, e: ast.AST) -> Optional[List[ast.expr]]:
+        """If *e* denotes the loader - directly, or through a single-assignment local bound to
+        functools.partial(loader, a, ...) - the list of pre-bound positional arguments; else None."""
+        if self._names_loader(e):
+            return []
+        if isinstance(e, ast.Name):
+            from ..match import closure_value
+            v = None
+            for m in self.methods.values():
+                for sc in [m] + list(m.children):
+                    if e.id in sc.locals and e.id not in sc.params:
+                        v = v or closure_value(sc, e.id)
+            if isinstance(v, ast.Call) and self.G.res.path(v.func) == 'functools.partial' and v.args \
+                    and self._names_loader(v.args[0]) and not v.keywords:
+                return list(v.args[1:])
+        return None
 
     def is_armed_get(self, n: Node) -> bool:
         """Is this awaited queue.get() the coroutine handed to wait_for for the timer (not a dequeue of its own)?"""
@@ -201,7 +253,7 @@ class BufferRoles:
 
 
 def _is_load_call(r: BufferRoles, e: ast.AST) -> bool:
-    return isinstance(e, ast.Call) and isinstance(e.func, ast.Name) and e.func.id == r.load.name
+    return isinstance(e, ast.Call) and r.loader_ref(e.func) is not None
 
 
 def _entry_graph(r: BufferRoles, f: Scope) -> CFG:
@@ -278,13 +330,14 @@ def c03(ctx: Ctx) -> None:
     # S2
     binds = [n for n in G.nodes if n.kind == 'store_name' and n.meta['name'] == RS and not n.meta.get('inlined_param')]
     muts = []
-    for gg in [G, gl]:
+    sink0 = RS if r.load_set_param is None else [x for x in r.load.params if x not in ('self', 'cls')][r.load_set_param]
+    for gg, nm in [(G, RS), (gl, sink0)]:
         for n in gg.nodes:
             if n.kind == 'call' and isinstance(n.ast.func, ast.Attribute):
-                recv = resolve(gg, n, n.ast.func.value, keep=(RS,))
-                if isinstance(recv, ast.Name) and recv.id == RS:
+                recv = resolve(gg, n, n.ast.func.value, keep=(nm,))
+                if isinstance(recv, ast.Name) and recv.id == nm:
                     muts.append((gg, n, n.ast.func.attr))
-            if n.kind == 'store_name' and n.meta['name'] == RS and isinstance(n.meta.get('stmt'), ast.AugAssign):
+            if n.kind == 'store_name' and n.meta['name'] == nm and isinstance(n.meta.get('stmt'), ast.AugAssign):
                 muts.append((gg, n, 'augassign'))
     bad = [(gg, n, m) for gg, n, m in muts if m not in ('add', 'update', 'copy', 'union', '__len__', '__contains__')]
     in_round = [b for b in binds if r.round_loop in b.loops]
@@ -357,8 +410,8 @@ def c03(ctx: Ctx) -> None:
                   'a drained producer is not handed to the loader', construct=construct_key('BUFFER.daemon', 'nowait get not loaded'))
     for d in r.drain_calls:
         par = parent(d.ast)
-        ok = isinstance(par, ast.Call) and G.res.path(par.func) == 'builtins.map' and isinstance(par.args[0], ast.Name) \
-            and par.args[0].id == r.load.name and isinstance(parent(par), ast.Call) and isinstance(parent(par).func, ast.Attribute) \
+        ok = isinstance(par, ast.Call) and G.res.path(par.func) == 'builtins.map' and r.loader_ref(par.args[0]) is not None \
+            and isinstance(parent(par), ast.Call) and isinstance(parent(par).func, ast.Attribute) \
             and parent(par).func.attr == 'extend' and isinstance(parent(par).func.value, ast.Name) and parent(par).func.value.id == L
         ctx.check('C03-S4', f'drained producers -> {norm(parent(par))[:70] if par is not None and parent(par) is not None else None}', G.loc(d), ok,
                   'every drained producer becomes a loader coroutine in the gather list',
@@ -386,8 +439,9 @@ def c03(ctx: Ctx) -> None:
                       construct=construct_key('BUFFER.daemon', 'no loader list'))
     # S5 / S6 on the loader's own graph
     fors = [n for n in gl.nodes if n.kind == 'for_iter' and n.meta.get('is_async')]
+    sink = RS if r.load_set_param is None else [x for x in r.load.params if x not in ('self', 'cls')][r.load_set_param]
     adds = [n for n in gl.nodes if n.kind == 'call' and isinstance(n.ast.func, ast.Attribute) and n.ast.func.attr == 'add'
-            and isinstance(n.ast.func.value, ast.Name) and n.ast.func.value.id == RS]
+            and isinstance(n.ast.func.value, ast.Name) and n.ast.func.value.id == sink]
     for fo in fors:
         ee = [e for e in gl.succ[fo.id] if e.label == 'exc']
         esc = [e for e in ee if e.dst is gl.raise_exit and (carries_exception(e.classes) or {'CancelledError', 'BaseException'} & set(e.classes or ()))]
